@@ -292,7 +292,7 @@ def _b(d):
     return bytes(d)
 
 
-def run_recv_script(stream, script, segs=None, ending="eof", ws_kwargs=None, timeout=5, head_cuts=None, max_timeouts=50, nonblocking=False, tls=False, half_closed=False):
+def run_recv_script(stream, script, segs=None, ending="eof", ws_kwargs=None, timeout=5, head_cuts=None, max_timeouts=50, nonblocking=False, tls=False, half_closed=False, lf_only=False, extra_headers=()):
     """Run `script` (list of (name, control_frame)) against `stream` delivered
     behind the handshake response.  segs: list of bytes/(TIMEOUT,None) items
     for the frame part (default: one segment).  Returns dict with the observed
@@ -303,7 +303,8 @@ def run_recv_script(stream, script, segs=None, ending="eof", ws_kwargs=None, tim
     ws_kwargs, amb_tls = _apply_ambient(W, ws_kwargs)
     tls = tls or amb_tls
     so, conn = net.pair()
-    peer = HandshakePeer(conn)
+    peer = HandshakePeer(conn, response=(lambda req: response_101(request_key(req) or "", extra_headers).replace(b"\r\n", b"\n")) if lf_only else None,
+                         extra_headers=extra_headers)
     if tls:
         # the transport is a TLS socket (one segment = one record; would-block shows as SSLWantReadError)
         so = net.SimTLSSocket(so)
@@ -370,7 +371,16 @@ def run_recv_script(stream, script, segs=None, ending="eof", ws_kwargs=None, tim
             elif ending == "reset":
                 c.peer_reset()
         peer.on_open = on_open
-    w.connect("ws://sim.test/", socket=so)
+    try:
+        w.connect("ws://sim.test/", socket=so)
+    except BaseException as e:  # noqa
+        if isinstance(e, (sched.SimAbort, KeyboardInterrupt)):
+            raise
+        # the opening handshake itself failed under this delivery of the stream: reported as the outcome of the first call
+        name0, cf0 = script[0]
+        return {"trace": [{"call": name0, "cf": cf0, "out": ("exc", "connect:" + classify_exc(W, e), repr(e)[:120], repo_frame_of(e)), "writes": [], "write_rest": 0,
+                           "consumed": 0}], "timeouts": 0, "wouldblocks": 0, "post_timeout_bad": [], "conn": conn, "ws": w, "sock": so, "peer": peer,
+                "resp_len": len(getattr(peer, "response_bytes", b"") or b"")}
     if half_closed:
         # the client has started the closing handshake itself and goes on receiving what the server still sends
         w.send_close()
